@@ -183,7 +183,9 @@ func c14Body(e *Env) {
 		e.Fail("C14", "probe", "%s: write transaction failed: %v", what, perr)
 		return false
 	}
-	if oldMax > 0 && newMaxRounded > oldMax {
+	// (only if the file was within its old limit: after an earlier shrink below
+	// the space in use the first additional pages only make up for the excess)
+	if oldMax > 0 && newMaxRounded > oldMax && usedBytes <= oldMax {
 		want := (newMaxRounded - oldMax) / ps
 		if capAfter-capBefore != want {
 			e.Fail("C14", "grow-capacity", "%s: %d pages were allocatable before and %d after, expected exactly %d additional pages", what, capBefore, capAfter, want)
